@@ -163,6 +163,7 @@ func (w *timerWorld) finish() {
 	if w.tm == nil {
 		return
 	}
+	w.g.StopParking()
 	w.g.ReleaseAll()
 	w.parkedBy = nil
 	w.census()
